@@ -291,6 +291,18 @@ pub fn c04() -> Result<u64, String> {
 pub fn c10() -> Result<u64, String> {
     let mut r = Rng::new(seed() ^ 10);
     let mut n = 0u64;
+    {   // runs longer than 2^16 and identical contents whose ids are a multiple of 2^32 (plus a run length) apart
+        let mut cases: Vec<(Model, &str)> = Vec::new();
+        let mut long_run = Model::new(); for i in 0..70_000u64 { long_run.insert(100 + i, vec![7, 7, 7]); } long_run.insert(5, vec![1]); cases.push((long_run, "a run of 70000 identical consecutive tiles"));
+        let mut far = Model::new(); far.insert(10, vec![4, 2]); far.insert(11, vec![4, 2]); far.insert(10 + (1u64 << 32) + 2, vec![4, 2]); far.insert(10 + (3u64 << 32) + 3, vec![4, 2]); cases.push((far, "identical contents at ids k*2^32 + run length after a run"));
+        for (want, what) in cases { n += 1;
+            let bytes = write_at(build(&want, Compression::GZip, &Default::default()), 0).map_err(|e| e.to_string())?.0;
+            let p = parse_archive(&bytes).map_err(|e| format!("written archive invalid ({what}): {e}"))?;
+            for (id, cnt) in want.iter().step_by(997).chain(want.iter().rev().take(3)) { if p.bytes_of(&bytes, *id) != Some(&cnt[..]) { return Err(format!("tile {id} has wrong bytes or is missing ({what})")); } }
+            if p.tiles.len() != want.len() { return Err(format!("the directories address {} ids, {} tiles were added ({what})", p.tiles.len(), want.len())); }
+            for w in p.entries.windows(2) { if w[0].id + w[0].run as u64 == w[1].id && w[0].off == w[1].off && w[0].len == w[1].len { return Err(format!("adjacent entries {:?} {:?} could be merged ({what})", w[0], w[1])); } }
+        }
+    }
     for round in 0..150 {
         let k = [1usize, 2, 3, 5, 8, 30][round % 6];
         let tiles = gen_tiles(&mut r, k, 2);
@@ -395,6 +407,7 @@ pub fn c01_c02_c18() -> Result<u64, String> {
     let mut n = 0u64;
     let mut cases: Vec<(Model, Compression, u64)> = Vec::new();
     for round in 0..48 { cases.push((gen_tiles(&mut r, [0, 1, 2, 5, 9, 40][round % 6], 1 << (round % 30)), COMPS[round % 4], [0u64, 1, 10, 127, 4096, 77][round % 6])); }
+    { let mut z31 = Model::new(); for id in [util::tile_id(31, 0, 0), util::tile_id(31, 0, 0) + 5, util::tile_id(31, (1 << 31) - 1, (1 << 31) - 1), util::tile_id(31, 1 << 30, 3), util::tile_id(30, 9, 9), util::tile_id(27, 1, 2)] { z31.insert(id, vec![(id % 251) as u8, 1, 2]); } cases.push((z31, Compression::GZip, 0)); }
     cases.push((big_tiles(6000), Compression::None, 0)); cases.push((big_tiles(4080), Compression::None, 24)); cases.push((big_tiles(30000), Compression::GZip, 3)); cases.push((noisy_tiles(12000, &mut r), Compression::GZip, 11)); cases.push((noisy_tiles(9000, &mut r), Compression::Brotli, 0));
     {   // a pre-filled stream that is LONGER than P + archive: the writer must leave the position at the archive's end
         let tiles = gen_tiles(&mut r, 4, 2);
@@ -491,11 +504,12 @@ pub fn c06() -> Result<u64, String> {
     let mk = |len: usize, r: &mut Rng| -> Vec<E> { (0..len as u64).map(|i| E { id: i * 2, off: 130 * i + r.below(2), len: 2, run: 1 }).collect() };
     let mut fit = 4064usize; while fit > 1000 && dir_enc(&mk(fit, &mut Rng::new(1))).len() > 16257 { fit -= 1; }
     let mut plan: Vec<(usize, usize)> = Vec::new();
-    for &len in &[0usize, 1, 2, 100, 4000, 4063, 4064, 4070, 4095, 4096, 4097, 9000, 20000] { plan.push((len, 5)); }
+    for &len in &[0usize, 1, 2, 100, 4000, 4063, 4064, 4070, 4095, 4096, 4097, 9000, 17000, 20000] { plan.push((len, 5)); }
     for pre in [127usize, 1000, 70000] { plan.push((fit, pre)); plan.push((fit - 1, pre)); plan.push((fit + 1, pre)); plan.push((9000, pre)); }
     for &(len, pre) in &plan { for c in COMPS { for start in [None, Some(1usize), Some(7), Some(4096), Some(100_000)] {
-        if start == Some(1) && len > 4100 { continue; }
-        if pre != 5 && start.is_some() && start != Some(4096) { continue; }
+        if start == Some(1) && len > 4100 && !(len == 9000 && pre == 70000) && !(len == 17000) { continue; }
+        if pre != 5 && start.is_some() && start != Some(4096) && !(len == 9000 && pre == 70000) { continue; }
+        if len == 17000 && !(c == Compression::None && (start == Some(1) || start == Some(7))) { continue; }
         n += 1;
         // entries sized so that the uncompressed encoding is about 4 bytes per entry (root lands around the 16 KiB window at ~4064 entries)
         let es: Vec<E> = if pre != 5 && (len == fit || len == fit - 1 || len == fit + 1) { mk(len, &mut Rng::new(1)) } else { mk(len, &mut r) };
